@@ -219,6 +219,16 @@ def run(res):
                         res.violation("attr-differs-from-properties:" + k, "a data file's embedded attribute differs from drf_properties.h5 (accepted later session)",
                                       dict(hist, file=f["name"]), props.get(k), norm(f["attrs"].get(k)))
                         break
+    # ---- a file a killed recorder left under its tmp. name must never become a finalized file: a restarted
+    #      writer whose first write falls into that period (refused), then closed (protocol harness of C02)
+    import protolib as P
+    sp = P.spec([[0, 150], [150, 130]], name="gapped-100-per-file-150+130")
+    b = P.baseline(res, sp)
+    if b.ops is not None:
+        for i, tmp_rel in P.restart_points(res, b, 2):
+            P.restart_after_kill(res, sp, i, tmp_rel, False, concurrent=False)
+            res.count("restart-over-a-leftover-tmp-file")
+        shutil.rmtree(b.work, True)
     res.assumptions += ["h5py reports rf_data, rf_data_index and attributes faithfully",
                         "multi-session sequence numbers are covered by C11"]
     res.trusted += [T3_TRUST, "Model/WriterCore.v + Model/IndexCalc.v are hand models, tied by this correspondence"]
@@ -230,4 +240,8 @@ T3_TRUST = ("translate/attrs2gallina.py (T3): symbolic reading of the straight-l
 
 
 def replay(res, rp):
+    if (rp.get("input") or {}).get("label") == "restart-after-kill":
+        import protolib as P
+        common.use_impl()
+        return P.replay_restart(res, rp)
     return wl.replay(res, rp)
